@@ -517,12 +517,36 @@ hs_dict = GenerateMatch(
         .setParseAction(to_dict)
 )
 
+class _NestedGridBody(pp.Token):
+    """
+    The text of a nested grid, read with the grammar of the version its own
+    header names (not with the grammar of the grid that holds it).
+    """
+    _HEADER_RE = re.compile(VERSION_RE.pattern.lstrip('^'))
+
+    def __init__(self):
+        super(_NestedGridBody, self).__init__()
+        self.name = 'nested grid'
+        self.mayReturnEmpty = False
+
+    def parseImpl(self, instring, loc, doActions=True):
+        match = self._HEADER_RE.match(instring, loc)
+        if match is None:
+            raise pp.ParseException(instring, loc,
+                                    'Expected version header', self)
+        try:
+            version = Version(match.group(1))
+        except ValueError as exc:
+            raise pp.ParseException(instring, loc, str(exc), self)
+        return hs_grid[version]._parse(instring, loc, doActions)
+
+
 hs_inner_grid = GenerateMatch( \
     lambda ver: And([
         # the grid may start on the line after '<<' (the form the
         # specification shows) or on the same line
         Suppress(Regex(r'<< *(?:\r?\n)?')),
-        hs_grid[ver],
+        _NestedGridBody(),
         Suppress(Regex(r' *>>')),
     ]))
 
